@@ -39,6 +39,7 @@ import (
 	"time"
 
 	"github.com/google/inverting-proxy/agent/utils"
+	"github.com/google/inverting-proxy/verifhook"
 )
 
 var (
@@ -81,6 +82,7 @@ func (p *proxy) handleAgentPostResponse(w http.ResponseWriter, r *http.Request, 
 	p.Lock()
 	pending, ok := p.requests[requestID]
 	p.Unlock()
+	verifhook.Emit("PostLookup", "id", requestID, "found", ok)
 	if !ok {
 		log.Printf("Could not find pending request: %q", requestID)
 		http.NotFound(w, r)
@@ -106,6 +108,7 @@ func (p *proxy) handleAgentPostResponse(w http.ResponseWriter, r *http.Request, 
 	defer pw.Close()
 
 	resp.Body = pr
+	verifhook.Gate("server.handoff", "id", requestID)
 	select {
 	case <-r.Context().Done():
 		return
@@ -121,6 +124,7 @@ func (p *proxy) handleAgentGetRequest(w http.ResponseWriter, r *http.Request, re
 	p.Lock()
 	pending, ok := p.requests[requestID]
 	p.Unlock()
+	verifhook.Emit("Fetch", "id", requestID, "found", ok)
 	if !ok {
 		log.Printf("Could not find pending request: %q", requestID)
 		http.NotFound(w, r)
@@ -138,17 +142,20 @@ func (p *proxy) handleAgentGetRequest(w http.ResponseWriter, r *http.Request, re
 // Note that any IDs returned by this method will never be returned again.
 func (p *proxy) waitForRequestIDs(ctx context.Context) []string {
 	var requestIDs []string
+	verifhook.Emit("ListStart", "p", fmt.Sprintf("%p", ctx))
 	select {
 	case <-ctx.Done():
 		return nil
 	case <-time.After(30 * time.Second):
 		return nil
 	case id := <-p.requestIDs:
+		verifhook.Emit("Recv", "p", fmt.Sprintf("%p", ctx), "id", id)
 		requestIDs = append(requestIDs, id)
 	}
 	for {
 		select {
 		case id := <-p.requestIDs:
+			verifhook.Emit("Recv", "p", fmt.Sprintf("%p", ctx), "id", id)
 			requestIDs = append(requestIDs, id)
 		default:
 			return requestIDs
@@ -158,6 +165,7 @@ func (p *proxy) waitForRequestIDs(ctx context.Context) []string {
 
 func (p *proxy) handleAgentListRequests(w http.ResponseWriter, r *http.Request) {
 	requestIDs := p.waitForRequestIDs(r.Context())
+	verifhook.Emit("ListReply", "p", fmt.Sprintf("%p", r.Context()), "ids", requestIDs, "backend", r.Header.Get(utils.HeaderBackendID))
 	respJSON, err := json.Marshal(requestIDs)
 	if err != nil {
 		http.Error(w, fmt.Sprintf("Failure serializing the request IDs: %v", err), http.StatusInternalServerError)
@@ -208,6 +216,7 @@ func (p *proxy) ServeHTTP(w http.ResponseWriter, r *http.Request) {
 		p.handleAgentRequest(w, r, backendID)
 		return
 	}
+	verifhook.Gate("server.newID")
 	id := p.newID()
 	log.Printf("Received new frontend request %q", id)
 	// Filter out hop-by-hop headers from the request
@@ -219,13 +228,16 @@ func (p *proxy) ServeHTTP(w http.ResponseWriter, r *http.Request) {
 	pending := newPendingRequest(r)
 	p.Lock()
 	p.requests[id] = pending
+	verifhook.Emit("Register", "id", id, "path", r.URL.Path)
 	p.Unlock()
+	verifhook.Gate("server.offer", "id", id)
 
 	// Enqueue the request
 	select {
 	case <-r.Context().Done():
 		// The client request was cancelled
 		log.Printf("Timeout waiting to enqueue the request ID for %q", id)
+		verifhook.Emit("ClientCancel", "id", id, "at", "offer")
 		return
 	case p.requestIDs <- id:
 	}
@@ -236,8 +248,10 @@ func (p *proxy) ServeHTTP(w http.ResponseWriter, r *http.Request) {
 	case <-r.Context().Done():
 		// The client request was cancelled
 		log.Printf("Timeout waiting for the response to %q", id)
+		verifhook.Emit("ClientCancel", "id", id, "at", "wait")
 		return
 	case resp := <-pending.respChan:
+		verifhook.Emit("ClientResp", "id", id, "status", resp.StatusCode)
 		// Copy all of the non-hop-by-hop headers to the proxied response
 		for name, vals := range resp.Header {
 			if isHopByHopHeader(name) {
